@@ -28,10 +28,10 @@ var c12Shapes = []string{
 	"unary-bad-bin-md", "open-bad-bin-md", "unary-with-trailer", "open-bidi", "open-client",
 	"body", "bad-body", "trailer-ok", "trailer-err", "reset",
 	"reset-unknown-type", "body+trailer", "unary-tiny-timeout", "unary-bad-timeout", "open-id0",
-	"empty-body", "dest-differs-in-case-unary", "dest-differs-in-case-open",
+	"empty-body", "dest-differs-in-case-unary", "dest-differs-in-case-open", "trailer-no-status",
 }
 
-const c12NShapes = 28
+const c12NShapes = 29
 
 const c12NSym = 2 * c12NShapes // shapes x 2 ids
 
@@ -109,6 +109,9 @@ func c12Envelope(sym int, n int) *wire.Rpc {
 		return &wire.Rpc{Id: id, Header: hdr(svc.MBidi), Body: &goatorepo.Body{Data: []byte{}}}
 	case "trailer-ok":
 		return &wire.Rpc{Id: id, Header: hdr(svc.MBidi), Status: okSt, Trailer: &goatorepo.Trailer{}}
+	case "trailer-no-status":
+		// a half-close that leaves the optional status out
+		return &wire.Rpc{Id: id, Header: hdr(svc.MBidi), Trailer: &goatorepo.Trailer{}}
 	case "trailer-err":
 		return &wire.Rpc{Id: id, Header: hdr(svc.MBidi), Status: &goatorepo.ResponseStatus{Code: 10, Message: "aborted"}, Trailer: &goatorepo.Trailer{}}
 	case "reset":
@@ -508,12 +511,26 @@ func c12Run(tier string, seed int64, idx int) *core.Result {
 				pool = append(pool, sym)
 			}
 		}
+		var owed []int // symbols that are owed a reset when their id was never opened
+		for _, sym := range pool {
+			switch c12Shapes[sym%c12NShapes] {
+			case "body", "bad-body", "empty-body", "body+trailer", "open-bad-bin-md":
+				owed = append(owed, sym)
+			}
+		}
 		for i := 0; i < c.N; i++ {
 			n := 2 + r.Intn(11)
+			burst := i%5 == 4 // a burst of 20..40 envelopes, nearly all of them owed a reset
+			if burst {
+				n = 20 + r.Intn(21)
+				res.Stat("half_duplex_reset_bursts", 1)
+			}
 			syms := make([]int, 0, n)
 			nu := 0
 			for j := 0; j < n; j++ {
-				if nu < 6 && r.Intn(4) == 0 {
+				if burst && r.Intn(8) != 0 {
+					syms = append(syms, owed[r.Intn(len(owed))])
+				} else if nu < 6 && r.Intn(4) == 0 {
 					syms = append(syms, unaryish[r.Intn(len(unaryish))])
 					nu++
 				} else {
@@ -617,7 +634,7 @@ func init() {
 	core.Register(&core.Prop{
 		ID:         "C12",
 		Level:      "exploration",
-		Rule:       "alphabet = 28 envelope shapes x 2 stream ids (56 symbols); ALL sequences of length <= 3 (quick: 178 808) / <= 4 (thorough: 10 013 304) are fed by a scripted peer to a fresh server connection, each followed by a valid probe request that must be answered correctly, a reference-dispatcher check (unary handler invocation count in the allowed range, no handler for wrong destination / malformed requests, one reset per body addressed to a never-opened id), and the end of the connection after which Serve must return; plus sequences of 2..12 envelopes that open no stream fed by a half-duplex peer (it writes the whole batch and the probe before reading anything; now and then it waits another 1.2 s of real time before it reads), seeded field-level mutations of a valid conversation and random sequences of length 5..40 (and 10^5 of length 5 in thorough). distinct_nontrivial = enumerated sequences (all distinct by construction) + distinct other batches.",
+		Rule:       "alphabet = 29 envelope shapes x 2 stream ids (58 symbols); ALL sequences of length <= 3 (quick: 198 534) / <= 4 (thorough: 11 515 030) are fed by a scripted peer to a fresh server connection, each followed by a valid probe request that must be answered correctly, a reference-dispatcher check (unary handler invocation count in the allowed range, no handler for wrong destination / malformed requests, one reset per body addressed to a never-opened id), and the end of the connection after which Serve must return; plus sequences of 2..12 envelopes (every fifth: a burst of 20..40, nearly all bodies for never-opened ids, each owed its reset) that open no stream fed by a half-duplex peer (it writes the whole batch and the probe before reading anything; now and then it waits another 1.2 s of real time before it reads), seeded field-level mutations of a valid conversation and random sequences of length 5..40 (and 10^5 of length 5 in thorough). distinct_nontrivial = enumerated sequences (all distinct by construction) + distinct other batches.",
 		Plan:       func(tier string, seed int64) int { return len(c12List(tier)) },
 		Run:        c12Run,
 		Exhaustive: func(string) bool { return true },
